@@ -326,6 +326,14 @@ def nesting_component(ck, runner, tier):
              {"kind": "crash", "stmt": star(22)[:200], "result": str(res)[:200]}, isinstance(res, dict))
 
 
+def planner_probe(ck, runner):
+    stmts = ["WITH c AS MATERIALIZED (SELECT x FROM generate_series(1, 3) g(x)) SELECT count(*) FROM c c1 JOIN c c2 ON c1.x = c2.x", "SELECT 1"]
+    res = runner.run(stmts, timeout=30)
+    bad = isinstance(res, dict) or "panic" in res[0]
+    ck.probe("planner/join-reorder/materialized-cte-self-join-assertion", "a MATERIALIZED CTE joined with itself panics at plan time (join reordering: assertion failed: self.hyper_edges.all_non_empty_edges_removed())",
+             {"kind": "crash", "stmts": stmts, "result": str(res)[:300]}, bad)
+
+
 def arith_probe(ck, runner):
     stmts = SETUP + ["SELECT a / (a - a) FROM base1"]
     res = runner.run(stmts, timeout=30)
@@ -352,7 +360,7 @@ def main():
     rng = Rng(ck.seed * 104729 + 15)
     try:
         import time
-        for name, fn in [("tokenizer", lambda: tokenizer_component(ck, rng, tier)), ("arith_probe", lambda: arith_probe(ck, runner)),
+        for name, fn in [("tokenizer", lambda: tokenizer_component(ck, rng, tier)), ("arith_probe", lambda: (arith_probe(ck, runner), planner_probe(ck, runner))),
                          ("nesting", lambda: nesting_component(ck, runner, tier)), ("statements", lambda: statements_component(ck, runner, rng, tier))]:
             t0 = time.time()
             fn()
